@@ -33,9 +33,9 @@ EV_PROP = {
 ACTIONS = ["Send", "TrySend", "WhenEmpty", "SendWake", "WhenFlushed", "FlushRet", "DropSender",
            "RecvTake", "IdleWake", "AttemptEnd", "RetryWake"]
 
-QUICK = ["q1", "q2", "q3", "q4", "q5", "kill"]
-QUICK_EVERY = {"q1": 3, "q2": 8, "q3": 2, "q4": 3, "q5": 1, "kill": 4}     # quick: seeded sample of the transitions
-THOROUGH = ["q1", "q2", "q3", "q4", "q5", "kill", "t3", "t1", "t2", "t1sim", "t2sim"]
+QUICK = ["q1", "q2", "q3", "q4", "q5", "q6", "kill"]
+QUICK_EVERY = {"q1": 3, "q2": 8, "q3": 2, "q4": 3, "q5": 1, "q6": 4, "kill": 4}     # quick: seeded sample of the transitions
+THOROUGH = ["q1", "q2", "q3", "q4", "q5", "q6", "kill", "t3", "t1", "t2", "t1sim", "t2sim"]
 SIM_BEHAVIOURS = 6000     # per worker
 NSHARDS = 12
 
